@@ -61,6 +61,22 @@ def fn_text_of(gen, item, fn_short):
     return text[m.start():m.end() + n.start()] if n else text[m.start():]
 
 
+_CALL_KW = {'if', 'while', 'for', 'match', 'loop', 'return', 'fn', 'in', 'as', 'let', 'else', 'move', 'ensures', 'requires', 'invariant', 'decreases',
+            'forall', 'exists', 'choose', 'assert', 'assume', 'proof', 'old', 'final', 'matches', 'is', 'by', 'implies', 'invariant_except_break'}
+
+
+def call_names(text):
+    """names of the functions / methods a piece of code calls (lower-case identifiers directly followed by an argument list;
+    macros and constructors are not calls).  Contract clauses (requires / ensures / proof blocks) are part of the text, so spec
+    function names appear too - harmless, the comparison is between two runs of the same contracts."""
+    text = re.sub(r'//[^\n]*', '', text)
+    out = set()
+    for m in re.finditer(r'(?<![\w!])([a-z_][a-z0-9_]*)\s*(?:::<[^<>()]*>)?\(', text):
+        if m.group(1) not in _CALL_KW:
+            out.add(m.group(1))
+    return out
+
+
 def unannotated_closures(text):
     """closure expressions that carry no contract (no `-> (name: T)` / requires / ensures after the parameter list).
     The verifier knows nothing about what such a closure returns, so a proof that has to look through one fails whether or
@@ -335,6 +351,8 @@ def check_property(prop, reg, args, seed):
     base_closures = baseline.get(prop, {}).get('closures', {}) if baseline.get(prop) and not args.rebaseline else {}
     base_closures_known = set(baseline.get(prop, {}).get('discharged', [])) if 'closures' in baseline.get(prop, {}) and not args.rebaseline else set()
     cur_closures = {}
+    base_calls = baseline.get(prop, {}).get('calls', {}) if baseline.get(prop) and not args.rebaseline else {}
+    cur_calls = {}
     for u in units:
         if u not in results:
             continue
@@ -387,6 +405,7 @@ def check_property(prop, reg, args, seed):
                   'status': 'discharged' if tv['success'] else 'failed', 'kind': 'lemma' if item is None else 'function-contract'}
             if item:
                 cur_closures[ob['id']] = unannotated_closures(fn_text_of(gen, item, key.split('::')[-1]))
+                cur_calls[ob['id']] = sorted(call_names(fn_text_of(gen, item, key.split('::')[-1])))
             if item:
                 ob['source'] = '%s:%d-%d' % (item['file'], item['span_lines'][0], item['span_lines'][1])
             obligations.append(ob)
@@ -429,6 +448,12 @@ def check_property(prop, reg, args, seed):
                         new_cl = [c for c in unannotated_closures(fn_text_of(gen, item, fn_short)) if c not in base_closures.get(ob['id'], [])]
                         if new_cl and base_closures is not None and ob['id'] in base_closures_known:
                             rec['needs_witness'] = 'the function now contains closure(s) without a contract that the unchanged tree does not have (%s); the verifier cannot look through them' % '; '.join(new_cl)[:300]
+                        # a call of a library function the function did not call on the unchanged tree: the verifier knows it only by
+                        # vstd's specification, which may say less than the function does (e.g. `i128::from(u64)` has none)
+                        if ob['id'] in base_calls:
+                            new_calls = sorted(c for c in call_names(fn_text_of(gen, item, fn_short)) if c not in base_calls[ob['id']])
+                            if new_calls and 'needs_witness' not in rec:
+                                rec['needs_witness'] = 'the function now calls %s, which it does not call on the unchanged tree (a library function is known to the verifier only by the specification in vstd, which may say less than the function does)' % ', '.join(new_calls)[:200]
                     if item and any(l['fn'] == fn_short for l in item.get('lost_annotations', [])):
                         rec['needs_witness'] = 'annotation anchor lost in %s: %s' % (fn_short, '; '.join(l['what'] for l in item['lost_annotations'] if l['fn'] == fn_short))
                     kf = next((k for k in known if k['obligation'] == oid and (k['at'] == '*' or k['at'] == at or (k['at'].endswith('...') and at.startswith(k['at'][:-3])))), None)
@@ -488,7 +513,8 @@ def check_property(prop, reg, args, seed):
     if args.rebaseline and not violations and not tool_limits:
         baseline[prop] = {'discharged': sorted(o['id'] for o in obligations if o['status'] == 'discharged' and o.get('class', 'proved') == 'proved' and not o['id'].startswith('kani/')),
                           'ms': {o['id']: o['ms'] for o in obligations if 'ms' in o},
-                          'closures': {k: v for k, v in sorted(cur_closures.items()) if v}}
+                          'closures': {k: v for k, v in sorted(cur_closures.items()) if v},
+                          'calls': {k: v for k, v in sorted(cur_calls.items())}}
         os.makedirs(os.path.join(ROOT, 'baseline'), exist_ok=True)
         with open(os.path.join(ROOT, 'baseline', 'baseline.json'), 'w') as f:
             json.dump(baseline, f, indent=1, sort_keys=True)
